@@ -24,7 +24,7 @@ func defC04() *ph.Def {
 }
 
 var c04Pre = []string{"p", "--a", "--s", "--s=v", "--so", "--io", "--l", "v", "--m", "k=v", "c", "--zz", "--li", "5", "--d", "--io=x", "w"}
-var c04Tail = []string{"--a", "--s", "c", "--", "--zz", "-a", "p", "--d", "--help", "help"}
+var c04Tail = []string{"--a", "--s", "c", "--", "--zz", "-a", "p", "--d", "--help", "help", ""}
 
 // judgeC04: argv = pre ++ ["--"] ++ tail, encoded in Extra["pre"] (length of pre).
 func judgeC04(pc *parserCase, verbose bool) []string {
@@ -151,8 +151,8 @@ func init() {
 	parserJudges["C04"] = judgeC04
 	register(&Check{
 		ID:        "C04",
-		QuickSecs: 120, ThoroSecs: 1500,
-		Rule: "input-space exploration, differential: argv = pre ++ [`--`] ++ tail for every pre of length <= Lp over 17 tokens (positional, flag, valued / optional-valued / greedy multi-valued / map options and their values, command, unknown option) and every tail of length <= Lt over 10 tokens " +
+		QuickSecs: 300, ThoroSecs: 1500,
+		Rule: "input-space exploration, differential: argv = pre ++ [`--`] ++ tail for every pre of length <= Lp over 17 tokens (positional, flag, valued / optional-valued / greedy multi-valued / map options and their values, command, unknown option) and every tail of length <= Lt over 11 tokens " +
 			"(known options, command name, further `--`, unknown and short options) in all 18 configurations; unless the reference model says the `--` is the still-missing mandatory value of the option before it (then the statement is applied to the next `--` of the tail), Parse(argv) must equal Parse(pre) in every option value, Called, warning and dispatch target and return remaining(pre) ++ tail; when Parse(pre) fails, Parse(argv) must fail with every option value and Called flag as after Parse(pre); " +
 			"distinct_nontrivial = distinct in-domain (configuration, pre, tail) cases",
 		Assume: []string{"pre longer than Lp / tail longer than Lt and other tokens are not covered"},
